@@ -27,7 +27,7 @@ instance (tag : Tag) : PresR (unexpectedStartTagInForeignContent tag) := by
   unfold unexpectedStartTagInForeignContent; tb_walk
 
 theorem presR_foreignEndTagLoop (tag : Tag) : ∀ (i : Nat) (first : Bool), PresR (foreignEndTagLoop tag i first)
-  | 0, _ => by unfold foreignEndTagLoop; infer_instance
+  | 0, _ => by unfold foreignEndTagLoop; tb_walk
   | n + 1, first => by
     haveI := fun b => presR_foreignEndTagLoop tag n b
     unfold foreignEndTagLoop
@@ -663,6 +663,44 @@ theorem ite_prefix_run {α : Type} {c : Prop} [Decidable c] {p : M Unit} {k : Un
     exact ⟨s1, Or.inr ⟨u, e1⟩, e2⟩
   · exact ⟨s, Or.inl rfl, e⟩
 
+/-- `flush_pending_table_text` (the DOCTYPE-in-table-text case of `process_token`) -/
+theorem flushPendingTableText_late {s s' : State} {m : Mode} (hl : Late s)
+    (e : flushPendingTableText s = .ok (m, s')) : Late s' ∧ isLate m = true ∧ Ext s.dom s'.dom := by
+  unfold flushPendingTableText at e
+  rw [getS_bind] at e
+  have hp := hl.st.ptt
+  generalize s.pendingTableText = l at e hp
+  haveI := pres_flushPendingFoster l hp
+  haveI := pres_flushPendingPlain l hp
+  obtain ⟨u1, s1, e1, e2⟩ := bind_ok.mp e
+  obtain ⟨hl1, x1⟩ := (inferInstance : Pres (modS fun s => { s with pendingTableText := [] })).p s u1 s1 hl e1
+  have tail : ∀ s2 : State, Late s2 → Ext s.dom s2.dom →
+      (getS >>= fun s => match s.origMode with
+        | none => (panicAt "unwrap-none" "rules.rs:1172" "orig_mode.take().unwrap()" : M Mode)
+        | some m => (set { s with origMode := none } : M Unit) >>= fun _ => pure m) s2 = .ok (m, s') →
+      Late s' ∧ isLate m = true ∧ Ext s.dom s'.dom := by
+    intro s2 hl2 x2 e4
+    rw [getS_bind] at e4
+    cases horig : s2.origMode with
+    | none => simp only [horig] at e4; exact absurd e4 panicAt_ok
+    | some m0 =>
+      simp only [horig] at e4
+      obtain ⟨u3, s3, e5, e6⟩ := bind_ok.mp e4
+      obtain ⟨rfl, rfl⟩ := pure_ok.mp e6
+      have hs3 := set_ok.mp e5
+      subst hs3
+      exact ⟨⟨hl2.base, hl2.pat, ⟨hl2.st.doc, hl2.st.ctx, hl2.st.oe, hl2.st.tail, hl2.st.head, hl2.st.ptt⟩,
+        ⟨hl2.ml.mode, (fun m h => by cases h), hl2.ml.tm⟩⟩, hl2.ml.orig _ horig, x2⟩
+  rcases ite_run e2 with ⟨_, e2⟩ | ⟨_, e2⟩
+  · obtain ⟨u2, s2, e3, e4⟩ := bind_ok.mp e2
+    obtain ⟨hl2, x2⟩ := (inferInstance : Pres (parseError "Non-space table text")).p s1 u2 s2 hl1 e3
+    obtain ⟨u3, s3, e5, e6⟩ := bind_ok.mp e4
+    obtain ⟨hl3, x3⟩ := (inferInstance : Pres (flushPendingFoster l)).p s2 u3 s3 hl2 e5
+    exact tail s3 hl3 ((x1.trans x2).trans x3) e6
+  · obtain ⟨u3, s3, e5, e6⟩ := bind_ok.mp e2
+    obtain ⟨hl3, x3⟩ := (inferInstance : Pres (flushPendingPlain l)).p s1 u3 s3 hl1 e5
+    exact tail s3 hl3 (x1.trans x3) e6
+
 theorem processToken_inv {s s' : State} {t : TokToken} {line : Nat} {r : SinkResult} (h : Inv3 s)
     (e : processToken t line s = .ok (r, s')) :
     Inv3 s' ∧ (Late s → Late s') ∧ (t = .eof → Late s') := by
@@ -738,13 +776,42 @@ theorem processToken_inv {s s' : State} {t : TokToken} {line : Nat} {r : SinkRes
         have : Same3 { s4 with mode := .beforeHtml } { s5 with mode := .beforeHtml } :=
           ⟨q5.nodes, rfl, q5.orig, q5.tm, q5.oe, q5.head, q5.doc, q5.ctx, q5.ptt⟩
         exact hb4.same this
-    · obtain ⟨u3, s3, e4, e5⟩ := bind_ok.mp e3
-      obtain ⟨tb, s5, e8, e9⟩ := bind_ok.mp e5
-      obtain ⟨rfl, rfl⟩ := pure_ok.mp e8
-      have q3 := same3_parseError e4
-      simp only at e9
-      obtain ⟨_, rfl⟩ := pure_ok.mp e9
-      exact ⟨h2.same q3, fun hl => (l2 hl).same q3, fun h => by cases h⟩
+    · have tail : ∀ s3 : State, Inv3 s3 → (Late s → Late s3) →
+          (parseError "DOCTYPE in body" >>= fun _ => (pure none : M (Option Token)) >>= fun tbToken =>
+            match tbToken with
+            | none => pure SinkResult.continue_
+            | some t => do
+              let __do_lift ← getS
+              processToCompletion (ptcFuel __do_lift t) t []) s3 = .ok (r, s') →
+          Inv3 s' ∧ (Late s → Late s') ∧ (TokToken.doctype dt = .eof → Late s') := by
+        intro s3 h3 l3 e3
+        obtain ⟨u3, s4, e4, e5⟩ := bind_ok.mp e3
+        obtain ⟨tb, s5, e8, e9⟩ := bind_ok.mp e5
+        obtain ⟨rfl, rfl⟩ := pure_ok.mp e8
+        have q3 := same3_parseError e4
+        simp only at e9
+        obtain ⟨_, rfl⟩ := pure_ok.mp e9
+        exact ⟨h3.same q3, fun hl => (l3 hl).same q3, fun h => by cases h⟩
+      rw [getS_bind] at e3
+      rcases ite_run e3 with ⟨hmt, e3⟩ | ⟨_, e3⟩
+      · -- in table text: the pending text is flushed, the original mode restored
+        have hmt' : s2.mode = .inTableText := by simpa using hmt
+        have hl2 : Late s2 := by
+          cases h2 with
+          | a ha => have := ha.2.1; rw [hmt'] at this; cases this
+          | b hb => have := hb.2.1; rw [hmt'] at this; cases this
+          | late hl => exact hl
+        obtain ⟨m0, s3, e4, e5⟩ := bind_ok.mp e3
+        obtain ⟨hl3, hm0, _⟩ := flushPendingTableText_late hl2 e4
+        obtain ⟨u4, s4, e6, e7⟩ := bind_ok.mp e5
+        unfold setMode at e6
+        have hs4 := modS_ok.mp e6
+        have hl4 : Late s4 := by
+          rw [hs4]
+          exact ⟨hl3.base, hl3.pat, ⟨hl3.st.doc, hl3.st.ctx, hl3.st.oe, hl3.st.tail, hl3.st.head, hl3.st.ptt⟩,
+            ⟨hm0, hl3.ml.orig, hl3.ml.tm⟩⟩
+        exact tail s4 (.late hl4) (fun _ => hl4) e7
+      · exact tail s2 h2 l2 e3
   | tag tg =>
     simp only at e3
     obtain ⟨tb, s5, e8, e9⟩ := bind_ok.mp e3
